@@ -190,10 +190,12 @@ func (dec *Decoder) decodeInterface(tag byte, p *interface{}) {
 		return
 	case TagClass:
 		dec.ReadStruct(interfaceType)
-		if dec.enter() {
-			dec.Decode(p)
-			dec.leave()
+		next := dec.NextByte()
+		for next == TagClass && dec.Error == nil {
+			dec.ReadStruct(interfaceType)
+			next = dec.NextByte()
 		}
+		dec.Decode(p, next)
 	case TagError:
 		var s string
 		dec.decodeString(stringType, dec.NextByte(), &s)
